@@ -21,6 +21,10 @@ CONSTANTS
   TaxDen = 1
   MaxEdits = 0
   DTs = {}
+  EditTFs = {}
+  EditCaps = {}
+  MaxCalls = 0
+  Sends = {}
 INVARIANTS
   Monitor
   Coverage
